@@ -659,7 +659,7 @@ func TestLargeTexts(t *testing.T) {
 // ------------------------------------------------------------------ (iii) lookup routines
 
 func TestLookupRoutinesExhaustive(t *testing.T) {
-	alpha := []string{"a", "\n", "é"}
+	alpha := []string{"a", "\n", "é", "\r", "\u2028"}
 	n := 0
 	var rec func(s string, d int)
 	rec = func(s string, d int) {
@@ -687,7 +687,7 @@ func TestLookupRoutinesExhaustive(t *testing.T) {
 				rk.Fail(t, "lookup", replay{Src: s, Part: "lookup", Span: [2]int{p, p}}, "token.LnCol(%q,%d) accepted an offset outside the text", s, p)
 			}
 		}
-		if d == 7 {
+		if d == 6 {
 			return
 		}
 		for _, a := range alpha {
@@ -695,12 +695,12 @@ func TestLookupRoutinesExhaustive(t *testing.T) {
 		}
 	}
 	rec("", 0)
-	evid.Exhaustive("texts-len<=7-over-{a,LF,é}-x-offsets", n)
+	evid.Exhaustive("texts-len<=6-over-{a,LF,é,CR,U+2028}-x-offsets", n)
 }
 
 func TestLookupRoutinesRandom(t *testing.T) {
 	rk.Check(t, "lookup-random", 3, evid.Scale(2000, 30000), func(t *rapid.T) {
-		s := rapid.StringOfN(rapid.RuneFrom([]rune("ab \n\n\r\té注👍#")), 0, 200, -1).Draw(t, "text")
+		s := rapid.StringOfN(rapid.RuneFrom([]rune("ab \n\n\r\té注👍#\u2028\u2029\u0085\v\f")), 0, 200, -1).Draw(t, "text")
 		pc := token.NewPosCache(s)
 		for i := 0; i < 8; i++ {
 			p := rapid.IntRange(0, len(s)).Draw(t, "pos")
